@@ -27,6 +27,11 @@ type StrV struct {
 type PtrV struct {
 	Obj  int // 0 = nil
 	Path []int
+	// Sym: symbolic element pointer: the location is element Sym (BV64, within bounds) of the array at Path, whose
+	// elements are scalars. Loads are ite-chains, stores update every element conditionally (no forking).
+	Sym *smt.Term
+	Off int // element offset added to Sym (slices)
+	N   int // number of addressable elements
 }
 
 type SliceV struct {
